@@ -154,6 +154,10 @@ def rf24_call(d, toks):
         buf = parse_buf(t[1])
         r = d.send(buf, pb(t[2]), int(t[3]), pb(t[4]))
         return f"{s_send_res(r)} buf={hx(buf)}"
+    if m == "sendl":
+        bufs = [parse_buf(x) for x in t[4:]]
+        r = d.send(bufs, pb(t[1]), int(t[2]), pb(t[3]))
+        return "[" + ",".join(s_send_res(x) for x in r) + "] buf=" + ",".join(hx(b) for b in bufs)
     if m == "write":
         buf = parse_buf(t[1])
         r = d.write(buf, pb(t[2]), pb(t[3]))
